@@ -308,6 +308,51 @@ def explore(name, level, seed):
                         if api.snap(a) != sna or api.snap(b) != snb:
                             bad("operand-mutated", "sum / difference of two many-variable combinations changed an operand")
     st["multi_variable_sums"] = nmulti
+    # scaling CHAINS: up to 8 successive scalings by field-size constants (coefficients of 2000+ bits if kept unreduced),
+    # as repeated exact division / Horner evaluation produces them; every intermediate form is checked
+    half = (p + 1) // 2
+    nscale = 0
+    for d, o, w in (("v1", api.v1, (0, 1, 0)), ("v1-v2", api.v1 - api.v2, (0, 1, p - 1)), ("v2*3-one", api.v2 * 3 - shared_one, (p - 1, 0, 3))):
+        for ks in ((half,) * 8, (p - 1, 2 ** 300, half, p - 2, 2 ** 255 + 19, half, 3, p - 1), (-(p + 2),) * 6, (2 ** 1100, p - 1), (-(2 ** 1030), 3, half)):
+            cur, want, desc = o, w, d
+            for k in ks:
+                s0 = api.snap(cur)
+                nxt = cur * k
+                want = tuple(x * k % p for x in want)
+                desc = "(%s)*k" % desc if len(desc) > 40 else "(%s)*%s" % (desc, "half" if k == half else (str(k) if abs(k) < 10 else "%d-bit" % k.bit_length()))
+                check("scaling chain " + desc, nxt, want, [("previous", cur, s0)], False)
+                nscale += 1
+                cur = nxt
+            check("scaling chain, then + v1: " + desc, cur + api.v1, (want[0], want[1] + 1, want[2]), [], False)
+            check("scaling chain, then negated: " + desc, -cur, tuple(-x for x in want), [], False)
+    st["scaling_chain_steps"] = nscale
+    # in-place operators on the backend class, and the shared constants afterwards
+    for opn in ("+=", "-=", "*="):
+        z, o1 = api.m.zero(), api.m.one()
+        sz, so = api.snap(z), api.snap(o1)
+        acc = api.m.zero()
+        try:
+            if opn == "+=":
+                acc += api.v1
+                want = (0, 1, 0)
+            elif opn == "-=":
+                acc -= api.v2
+                want = (0, 0, p - 1)
+            else:
+                acc = api.m.one()
+                acc *= 5
+                want = (5, 0, 0)
+        except TypeError:
+            continue
+        check("zero/one %s leaf" % opn, acc, want, [("an earlier zero()", z, sz), ("an earlier one()", o1, so)], False)
+        for nm, fresh, wf in (("zero()", api.m.zero(), (0, 0, 0)), ("one()", api.m.one(), (1, 0, 0))):
+            f, junk = api.form(fresh)
+            st["trees"] += 1
+            if junk or f != wf:
+                bad("constant-changed-by-in-place-operator", "after `acc = zero(); acc %s leaf` a fresh %s has the form %s" % (opn, nm, f))
+        lf, junk = api.form(api.v1)
+        if lf != (0, 1, 0):
+            bad("leaf-mutated", "after an in-place operator the leaf v1 has the form %s" % (lf,))
     # the shared leaves must still be what they were
     for d, o, w in leaves:
         f, junk = api.form(o)
